@@ -79,6 +79,12 @@ theorem C08_footnote_row (x W : Rat) (hx : 0 < x) : footRow [x] W = .ok [twip W]
   have : x ≠ 0 := by grind
   simp [footRow, toTwips, footRowQ_single x W this]
 
+/-- … and with ANY non-empty vector of positive widths (repo fix 'one cell spanning the table': the cell ends at
+the last boundary; it used to end at the first one, see `C08enc`) -/
+theorem C08_footnote_row_any (w : List Rat) (W : Rat) (hne : w ≠ []) (hp : AllPos w) : footRow w W = .ok [twip W] := by
+  have hl := C08_last_is_W w W hne hp
+  simp [footRow, footRowQ, rowQ, toTwips, hl]
+
 /-! ## headers line up with the data columns — after page_by / subline_by column removal -/
 
 /-- A header that inherited the body's widths (one text cell per displayed column) has exactly the
